@@ -9,6 +9,28 @@ harness uses (`Fn1`, `Fn2`); the per-function theorems are stated for arbitrary 
 -/
 namespace B6.Model.Collections
 
+/-- Go `int(f)` for the float64 with order-preserving code `c`, as `api.Convert` performs it when a float
+reaches an `int` parameter (`v.CanConvert(t)` → `reflect.Value.Convert`): truncation toward zero; a value
+that does not fit (|f| ≥ 2^63, ±Inf) gives `-2^63`, which is what amd64's CVTTSD2SQ returns — the Go spec
+leaves that case implementation-dependent. -/
+def floatToInt (c : Int) : Int :=
+  let bits := c.natAbs
+  let e := bits / 2 ^ 52
+  let m := bits % 2 ^ 52
+  if e = 0 then 0                                   -- zero and subnormals
+  else if e = 2047 then -(2 ^ 63 : Int)             -- ±Inf
+  else
+    let mag : Nat := if e ≥ 1075 then (2 ^ 52 + m) * 2 ^ (e - 1075) else (2 ^ 52 + m) / 2 ^ (1075 - e)
+    if mag ≥ 2 ^ 63 then -(2 ^ 63 : Int)
+    else if c < 0 then -(mag : Int) else (mag : Int)
+
+/-- a value arriving at an `int` parameter of a library function (`api.Convert` to `int`):
+ints pass, floats are converted, anything else is "expected int, found …" -/
+def argInt : Val → Option Int
+  | .int i => some i
+  | .float c => some (floatToInt c)
+  | _ => none
+
 /-- `{v -> …}` lambdas for filter and map -/
 inductive Fn1 where
   | gtc (c : Val)        -- {v -> gt v c}
@@ -22,10 +44,8 @@ inductive Fn1 where
 def Fn1.apply : Fn1 → Val → Option Val
   | .gtc c, v => (goGreater v c).map .bool
   | .cgt c, v => (goGreater c v).map .bool
-  | .addc c, .int i => some (.int (wrap64 (i + c)))
-  | .addc _, _ => none                              -- "add-ints: expected int, found …"
-  | .tostr, .int i => some (.str (toString i))
-  | .tostr, _ => none
+  | .addc c, v => (argInt v).map fun i => .int (wrap64 (i + c))
+  | .tostr, v => (argInt v).map fun i => .str (toString i)
   | .ident, v => some v
   | .konst c, _ => some c
 
@@ -38,8 +58,7 @@ inductive Fn2 where
 
 def Fn2.apply : Fn2 → Val → Val → Option Item
   | .swap, k, v => some (v, k)
-  | .incv c, k, .int i => some (k, .int (wrap64 (i + c)))
-  | .incv _, _, _ => none
+  | .incv c, k, v => (argInt v).map fun i => (k, .int (wrap64 (i + c)))
   | .first, _, _ => none
 
 mutual
